@@ -1,7 +1,8 @@
 """Facts loader: runs msa-extract over translation units of the *current* /repo tree and
 loads the JSONL into Python objects (functions with typed expression trees + CFG, records,
 enums, constants, macros, call sites).  Nothing is cached across runs."""
-import json, os, re, subprocess, sys, time, shutil, tempfile
+import json
+import os, os, re, subprocess, sys, time, shutil, tempfile
 from concurrent.futures import ThreadPoolExecutor
 
 VERIF = os.path.dirname(os.path.dirname(os.path.abspath(__file__)))
@@ -41,6 +42,39 @@ def library_units(repo=None):
 
 C_UNITS = ['lang/c/minimessage/MiniMessage.c', 'lang/c/minimessage/MiniMessageGateway.c',
            'lang/c/micromessage/MicroMessage.c', 'lang/c/micromessage/MicroMessageGateway.c']
+
+
+_META = os.environ.get('MSA_META', '')
+_FLIP = {'<': '>', '<=': '>=', '>': '<', '>=': '<=', '==': '==', '!=': '!='}
+
+
+def _metamorph(func, root, mode):
+    """Checker self-test only (MSA_META=flip|not): rewrite the facts into an equivalent program — every comparison with its operands exchanged (a < b  =>  b > a), or every `!x` as `x == false` and
+    every `x == false` as `!x`.  A rule whose verdict changes under these rewritings depends on the spelling of the source, not on its meaning."""
+    lits = ('CXXBoolLiteralExpr', 'GNUNullExpr', 'CXXNullPtrLiteralExpr')
+    for n in list(root.walk()):
+        if n['k'] != 'BinaryOperator' and not (n['k'] == 'UnaryOperator' and n.get('op') == '!'):
+            continue
+        if mode == 'flip' and n['k'] == 'BinaryOperator' and n.get('op') in _FLIP and len(n['ch']) == 2:
+            a, b = n['ch']
+            core = lambda x: x if x['k'] not in ('ImplicitCastExpr', 'ParenExpr') or not x['ch'] else x['ch'][0]
+            if core(a)['k'] in lits or core(b)['k'] in lits:
+                continue
+            n['ch'] = [b, a]
+            n['op'] = _FLIP[n['op']]
+        elif mode == 'not':
+            if n['k'] == 'UnaryOperator' and n['ch'] and 'bool' in n['ch'][0].type():
+                lit = Node({'i': 10000000 + n['i'], 'k': 'CXXBoolLiteralExpr', 'v': 0, 'l': n.get('l'), 't': n.get('t'), 'ch': []})
+                lit.parent = n
+                lit.func = func
+                func.nodes[lit['i']] = lit
+                n['k'] = 'BinaryOperator'
+                n['op'] = '=='
+                n['ch'] = [n['ch'][0], lit]
+            elif n['k'] == 'BinaryOperator' and n.get('op') == '==' and len(n['ch']) == 2 and n['ch'][1]['k'] == 'CXXBoolLiteralExpr' and not n['ch'][1].get('v'):
+                n['k'] = 'UnaryOperator'
+                n['op'] = '!'
+                n['ch'] = [n['ch'][0]]
 
 
 class Node(dict):
@@ -259,6 +293,8 @@ class Func(object):
                 new.append(cn)
                 st.append(cn)
             n['ch'] = new
+        if _META:
+            _metamorph(self, root, _META)
         return root
 
     def ptype(self, p):
